@@ -90,9 +90,9 @@ def compare_worlds(a, b):
     return 'worlds differ'
 
 
-def run_history(drv, setup, dialect, hist_packets, strict=True, subs=None, every=False):
+def run_history(drv, setup, dialect, hist_packets, strict=True, subs=None, every=False, stream=None):
     """-> (model reply (canonicalised), implementation reply)"""
-    stream = history.stream_of(hist_packets)
+    stream = history.stream_of(hist_packets) if stream is None else stream
     impl = iplay.play_stream(dialect, setup.definitions, setup.views, stream, strict, subs, every=every)
     model = None
     if drv is not None:
